@@ -47,6 +47,9 @@ def run(ctx):
     check_stripws(ctx)
     # the serializer right-strips exactly the lines outside quoted text: its idea of a quoted region must agree with the lexer's
     check_serializer(ctx, 'R10.4', [r for r in SERIALIZER_REGIONS if r[0].startswith(('single-quoted', 'double-quoted'))])
+    from .. import rules_base as RB
+    ctx.rule('R10.B', 'base model: token-type containment, token flags / normal form, Token.match and imt behave as the abstract evaluation assumes', floor=1)
+    RB.check_base_model(ctx, 'R10.B', parts=('contains', 'flags', 'match', 'imt'))
 
 
 def check_split_table(ctx, V):
